@@ -1,6 +1,7 @@
 ------------------------------- MODULE MC_Store -------------------------------
 EXTENDS Store
 AllCaps == {"add", "sub", "muln", "nmul", "divn", "ratio", "addeq", "subeq", "muleq", "diveq", "set", "mutable"}
+UnitCaps == {"muln", "divn", "muleq", "diveq", "set"}       \* unit histories: scalings, mutators and the unit actions
 AffineCaps == {"muln", "nmul", "divn", "muleq", "diveq", "set", "mutable"}      \* e.g. Position, Temperature: no Self + Self
 P1 == << <<6>>, <<-4>>, <<12>> >>
 P2 == << <<6, -4>>, <<3, 8>>, <<-12, 2>> >>
